@@ -363,6 +363,23 @@ func (s *state) junk(n int) {
 		}(w)
 	}
 	wg.Wait()
+	// structured junk: every escape prefix followed by every truncated escape, in both quote
+	// kinds, inside a regular expression and as an identifier (the lexer indexes ahead there)
+	var escapes []string
+	for _, pre := range []string{"", "a", "\\uD83D", "\\uDBFF", "\\uD800", "\\uDC00", "\\u0041", "\\x41", "\\7", "\\0", "\\\\"} {
+		for _, suf := range []string{"\\u", "\\u1", "\\u12", "\\u123", "\\uD", "\\uDC", "\\uDC0", "\\uDC00", "\\ug000", "\\x", "\\x4", "\\xg", "\\", "\\8", "\\400"} {
+			for _, q := range []string{"\"", "'"} {
+				escapes = append(escapes, "x = "+q+pre+suf+q, "x = "+q+pre+suf, q+pre+suf+q+".length")
+			}
+			escapes = append(escapes, "x = /"+pre+suf+"/", pre+suf+" = 1", "a."+pre+suf)
+		}
+	}
+	for _, src := range escapes {
+		atomic.AddInt64(&s.n.junk, 1)
+		for _, m := range []parser.Mode{0, parser.StoreComments, parser.IgnoreRegExpErrors} {
+			s.total(src, m, "structured junk (escapes)")
+		}
+	}
 	// structured junk: unterminated tokens and deep nesting
 	for _, src := range []string{
 		"/*", "/* *", "//", "\"", "'", "\"\\", "'\\u", "/", "/a", "/[", "/[/", "/\\", "a = /", "0x", "1e", "1e+", ".", "..", "...", "\\", "\\u", "\\u00", "a\\u00", "\\u0030", "a.\\u0030",
